@@ -71,15 +71,19 @@ func clmulRef(a, b ot.Label) (lo, hi ot.Label) {
 func checkSeed(msgs []memio.Msg, s *session) ot.Label {
 	var seed2 ot.Label
 	seed2.SetBytes(msgs[s.resp].Data)
-	if !seedIsBound {
+	if bindMode == "none" {
 		return seed2
 	}
 	h := sha256.New()
-	for _, i := range s.payload {
-		h.Write(msgs[i].Data)
+	if bindMode == "all" || bindMode == "payload" {
+		for _, i := range s.payload {
+			h.Write(msgs[i].Data)
+		}
 	}
-	for _, i := range s.check {
-		h.Write(msgs[i].Data)
+	if bindMode == "all" || bindMode == "check" {
+		for _, i := range s.check {
+			h.Write(msgs[i].Data)
+		}
 	}
 	h.Write(msgs[s.resp].Data)
 	var bound ot.Label
@@ -87,21 +91,24 @@ func checkSeed(msgs []memio.Msg, s *session) ot.Label {
 	return bound
 }
 
-// seedIsBound: does the implementation derive the coefficients from seed || matrices (true) or from the seed alone
 // (false)? The derivation is public (an attacker knows the code); the harness learns it from the implementation's
 // behaviour: the adaptive alteration of a Delta-selected column is accepted exactly under the right derivation.
 var (
-	seedIsBound  bool
+	bindMode     = "all"
 	bindingKnown bool
 )
 
+// learnBinding: which part of the transcript the implementation binds the coefficients to - all matrices ("all"),
+// nothing ("none"), only the check batch ("check") or only the payload batch ("payload"). The derivation is public
+// (an attacker knows the code); the harness learns it from behaviour: the adaptive alteration is accepted exactly
+// under the right derivation.
 func learnBinding() {
 	if bindingKnown {
 		return
 	}
 	bindingKnown = true
-	for _, bound := range []bool{true, false} {
-		seedIsBound = bound
+	for _, mode := range []string{"all", "none", "check", "payload"} {
+		bindMode = mode
 		for _, dc := range []bool{false, true} {
 			k := cs{N: 9, Choices: "alt", Seed: 424242, DeltaC: dc, F: Fault{Kind: "adaptive", Batch: "payload", Col: 5, Row: 3}}
 			if probeAccepted(k) {
@@ -109,7 +116,7 @@ func learnBinding() {
 			}
 		}
 	}
-	seedIsBound = false
+	bindMode = "none"
 }
 
 // chiLabel is the harness's own derivation of the i-th challenge coefficient: block i of the AES-CTR key stream
@@ -413,6 +420,32 @@ func runCase(ctx *runner.Ctx, k cs) {
 		for _, j := range set {
 			applied = flipBit(dc, len(dc)/128, f.Col, j) && applied
 		}
+	case "kernel-payload":
+		// matrix-only alteration INSIDE the payload batch: bit (col,row) and the same column in a set S of other
+		// payload rows with xor_{s in S} chi[s] = chi[row] (needs > 128 payload rows). If the coefficients do not
+		// depend on the payload matrix the altered rows cancel in the sender's check whatever Delta is.
+		if len(s.payload) != 1 || k.N > 256 || k.N < 130 {
+			return
+		}
+		seed2 := checkSeed(s.msgs, s)
+		target := chiLabel(seed2, f.Row)
+		var basis []ot.Label
+		var rows []int
+		for j := 0; j < k.N; j++ {
+			if j != f.Row {
+				basis = append(basis, chiLabel(seed2, j))
+				rows = append(rows, j)
+			}
+		}
+		set, ok := solveXor(basis, target)
+		if !ok {
+			return
+		}
+		d := mut(s.payload[0])
+		applied = flipBit(d, len(d)/128, f.Col, f.Row)
+		for _, j := range set {
+			applied = flipBit(d, len(d)/128, f.Col, rows[j]) && applied
+		}
 	case "pair-x":
 		list2 := s.payload
 		if f.Batch2 == "check" {
@@ -515,7 +548,7 @@ func runCase(ctx *runner.Ctx, k cs) {
 		}
 		if !s.recv[j].Equal(want) {
 			kind := f.Kind
-			if kind == "adaptive" || kind == "kernel" {
+			if kind == "adaptive" || kind == "kernel" || kind == "kernel-payload" {
 				kind = fmt.Sprintf("%s-selected=%v", kind, selected)
 			}
 			ctx.Violate("silent-accept."+kind+"."+f.Batch, fmt.Sprintf("sender accepted without error but position %d no longer satisfies recv=sent^b*Delta (n=%d, fault %+v, column selected by Delta: %v)", j, k.N, f, selected), k)
@@ -754,6 +787,19 @@ func work(ctx *runner.Ctx) {
 					if !emit(cs{N: n, Choices: "alt", Seed: seed, DeltaC: dc, F: Fault{Kind: "kernel", Batch: "payload", Col: c, Row: r}}) {
 						return
 					}
+				}
+			}
+		}
+	}
+	// the same inside the payload batch alone (more than 128 payload rows): every column x a stride of rows
+	for _, dc := range []bool{false, true} {
+		for c := 0; c < 128; c++ {
+			for r := 0; r < 200; r++ {
+				if (r+c)%8 != 0 && ctx.Quick() {
+					continue
+				}
+				if !emit(cs{N: 200, Choices: "alt", Seed: seed, DeltaC: dc, F: Fault{Kind: "kernel-payload", Batch: "payload", Col: c, Row: r}}) {
+					return
 				}
 			}
 		}
